@@ -250,14 +250,25 @@ def go_env():
 
 
 def go_build(ctx, pkg, tags="verif", timeout=900):
-    """Build harness/cmd/<pkg> against /repo's current working tree."""
-    # keep go.sum in sync with the repository
-    try:
-        shutil.copy(os.path.join(REPO, "go.sum"), os.path.join(HARNESS, "go.sum"))
-    except Exception:
-        pass
+    """Build harness/cmd/<pkg> against the repository's current working tree (REPO, default /repo).
+
+    With VERIF_REPO pointing elsewhere (development: scratch worktrees with seeded changes) an alternative
+    go.mod with the replace directive rewritten is used through -modfile, /verif/harness/go.mod is untouched."""
     out = ctx.path("bin", pkg)
-    cmd = ["go", "build", "-tags", tags, "-o", out, "./cmd/" + pkg]
+    modargs = []
+    if os.path.realpath(REPO) != "/repo":
+        mod = open(os.path.join(HARNESS, "go.mod")).read().replace("=> /repo", "=> " + os.path.realpath(REPO))
+        mf = ctx.path("alt", "go.mod")
+        open(mf, "w").write(mod)
+        shutil.copy(os.path.join(REPO, "go.sum"), ctx.path("alt", "go.sum"))
+        modargs = ["-modfile", mf]
+    else:
+        # keep go.sum in sync with the repository
+        try:
+            shutil.copy(os.path.join(REPO, "go.sum"), os.path.join(HARNESS, "go.sum"))
+        except Exception:
+            pass
+    cmd = ["go", "build"] + modargs + ["-tags", tags, "-o", out, "./cmd/" + pkg]
     t0 = time.time()
     try:
         p = subprocess.run(cmd, cwd=HARNESS, env=go_env(), stdout=subprocess.PIPE, stderr=subprocess.STDOUT, timeout=timeout)
@@ -272,6 +283,7 @@ def go_build(ctx, pkg, tags="verif", timeout=900):
 def run_bin(ctx, binary, args, timeout=900, env=None, stdin=None, cwd=None):
     e = go_env()
     e["VERIF_SEED"] = str(ctx.seed)
+    e["VERIF_REPO"] = REPO
     e["VERIF_TIER"] = ctx.tier
     if env:
         e.update(env)
@@ -314,10 +326,16 @@ def write_jsonl(path, rows):
 # verdict
 # ----------------------------------------------------------------------------------------------
 def load_known():
+    out = []
     p = os.path.join(VERIF, "known_findings.json")
-    if not os.path.exists(p):
-        return []
-    return json.load(open(p)).get("findings", [])
+    if os.path.exists(p):
+        out += json.load(open(p)).get("findings", [])
+    d = os.path.join(VERIF, "known_findings.d")
+    if os.path.isdir(d):
+        for f in sorted(os.listdir(d)):
+            if f.endswith(".json"):
+                out += json.load(open(os.path.join(d, f))).get("findings", [])
+    return out
 
 
 def finish(ctx, level="model_checking", extra_cov=None, rule=None):
